@@ -124,9 +124,9 @@ func init() {
 		explain: "Ring: one inductive step from every valid representation state (capacity, begin, end, empty enumerated; buffer contents and the pushed value symbolic) against the bounded-FIFO abstraction, plus histories from NewRing with symbolic operation kinds; Bst: histories with symbolic operation kinds and symbolic values (bit-vectors for int8..int64, IEEE floating point for float32/float64) against a multiset model; the executor forks on tree shape, the solver decides every comparison including wrap-around",
 		bounds: func(t string) string {
 			if t == "thorough" {
-				return "ring capacity 1..5, all states, ops Put/Get/At/IsFull/IsEmpty; ring histories <= 8 ops; Bst histories <= 5 ops for integer types, <= 4 for float types; Bst inductive step from every valid tree with <= 4 nodes (23 shapes)"
+				return "ring capacity 1..5, all states, ops Put/Get/At/IsFull/IsEmpty; ring histories <= 8 ops; Bst histories <= 5 ops (int8, int16), <= 4 (int32, int64, int, float32), <= 3 (float64); Bst inductive step from every valid tree with <= 4 nodes (23 shapes)"
 			}
-			return "ring capacity 1..4, all states; ring histories <= 6 ops; Bst histories <= 4 ops (int8,int16,int64) / 3 ops (int32,int,float32,float64); Bst inductive step from every valid tree with <= 3 nodes (all shapes, symbolic values under the search invariant), int8/int64/float64"
+			return "ring capacity 1..4, all states; ring histories <= 6 ops; Bst histories <= 4 ops (int8,int16) / 3 ops (int32,int64,int,float32,float64); Bst inductive step from every valid tree with <= 3 nodes (all shapes, symbolic values under the search invariant), int8/int64/float64"
 		},
 		outside:     "longer histories (ring: covered by the inductive step given the invariant; Bst: not covered), NaN and infinities as Bst elements, concurrent use",
 		assumptions: append([]string{"fp mode: bit-precise IEEE-754 (QF_FP); the comparison of a difference with zero is rewritten to a direct comparison by a lemma that the solver discharges (unsat) once per solver process before it is used", "ring representation invariant: 0<=begin,end<cap and empty => begin==end (shown reachable-closed by the history harness)"}, commonAssumptions...),
@@ -184,8 +184,8 @@ func init() {
 				fp    bool
 				q, th int
 			}
-			for _, b := range []bt{{"H_C17_BstI8", false, 4, 5}, {"H_C17_BstI16", false, 4, 5}, {"H_C17_BstI32", false, 3, 5}, {"H_C17_BstI64", false, 4, 5}, {"H_C17_BstInt", false, 3, 4},
-				{"H_C17_BstF32", true, 3, 4}, {"H_C17_BstF64", true, 3, 4}} {
+			for _, b := range []bt{{"H_C17_BstI8", false, 4, 5}, {"H_C17_BstI16", false, 4, 5}, {"H_C17_BstI32", false, 3, 4}, {"H_C17_BstI64", false, 3, 4}, {"H_C17_BstInt", false, 3, 4},
+				{"H_C17_BstF32", true, 3, 4}, {"H_C17_BstF64", true, 3, 3}} {
 				mx := b.q
 				if tier == "thorough" {
 					mx = b.th
